@@ -45,7 +45,10 @@ func (r *CallRule) callerMatches(fn *ssa.Function, rulePkg string) bool {
 	// that is itself subject to the rule; closures called directly are inlined into F.
 	names := []string{}
 	if fn.Pkg != nil {
-		names = append(names, fn.Pkg.Pkg.Path()+"::"+fn.RelString(fn.Pkg.Pkg))
+		names = append(names, fnPkgPath(fn)+"::"+fn.RelString(fnTypesPkg(fn)))
+	} else if o := fn.Origin(); o != nil && o != fn && o.Pkg != nil {
+		// an instantiation of a generic function is named like the generic function
+		names = append(names, fnPkgPath(o)+"::"+o.RelString(o.Pkg.Pkg))
 	}
 	// "!pattern" entries exclude callers (exemptions are thus explicit in the contract)
 	for _, pat := range r.Callers {
@@ -119,7 +122,7 @@ func implementsMethod(fn *ssa.Function, ifaceName string) bool {
 			find(imp, depth+1)
 		}
 	}
-	find(fn.Pkg.Pkg, 0)
+	find(fnTypesPkg(fn), 0)
 	rt := fn.Signature.Recv().Type()
 	for _, it := range cands {
 		if !types.Implements(rt, it) {
@@ -358,7 +361,7 @@ func (c *Ctx) initGhostFields(st *State, ref string, elem types.Type) {
 		if pt != n.Obj().Name() {
 			continue
 		}
-		rt := c.resolveType(g.Ret, &Env{c: c, pkgPath: c.fn.Pkg.Pkg.Path()})
+		rt := c.resolveType(g.Ret, &Env{c: c, pkgPath: fnPkgPath(c.fn)})
 		if rt == nil {
 			continue
 		}
